@@ -7,3 +7,29 @@ Import ListNotations.
 Theorem C08_generic_is_leaves : forall g, In g hook_names -> generic_is_leaves_at g = true.
 Proof. exact generic_equals_its_leaves. Qed.
 Print Assumptions C08_generic_is_leaves.
+
+(* ---- end-to-end part (MiniPy): for a construct hook h and two selections that both contain it -- in particular
+   h alone and any selection containing h -- analyses whose hooks return nothing receive the same sequence of
+   events through h, and the program behaves the same; first for the reference semantics, then for the
+   instrumented program through the refinement theorem *)
+From DV Require Import Engine.Dispatch Py.Syntax Py.Sem Py.Instr Py.Refine.
+Theorem C08_reference_hook_independent :
+  forall (D : data) (analyses : list (analysis (Sem.earg (d_val D)))) (modpath : String.string)
+         (H1 H2 : list String.string) (h : String.string) (p : program) (fuel : nat) (s : state D),
+    observing_analyses D analyses -> list_building_pure D -> bool_truth D ->
+    construct_hook h = true -> Base.Util.mem_str h H1 = true -> Base.Util.mem_str h H2 = true ->
+    src_prog p = true -> g8_prog H1 H2 p = true ->
+    deliveries_to D h (ref_run D analyses modpath H1 fuel p s) = deliveries_to D h (ref_run D analyses modpath H2 fuel p s)
+    /\ visible D (ref_run D analyses modpath H1 fuel p s) = visible D (ref_run D analyses modpath H2 fuel p s).
+Proof. exact reference_hook_independent. Qed.
+Print Assumptions C08_reference_hook_independent.
+
+Theorem C08_instrumented_hook_independent :
+  forall (D : data) (analyses : list (analysis (Sem.earg (d_val D)))) (modpath : String.string)
+         (H1 H2 : list String.string) (h : String.string) (p : program) (fuel : nat) (s : state D),
+    observing_analyses D analyses -> pure_truth D -> list_building_pure D ->
+    construct_hook h = true -> Base.Util.mem_str h H1 = true -> Base.Util.mem_str h H2 = true ->
+    src_prog p = true -> ok_prog H1 p = true -> ok_prog H2 p = true -> g8_prog H1 H2 p = true ->
+    deliveries_to D h (inst_run D analyses modpath H1 fuel p s) = deliveries_to D h (inst_run D analyses modpath H2 fuel p s).
+Proof. exact instrumented_hook_independent. Qed.
+Print Assumptions C08_instrumented_hook_independent.
